@@ -30,7 +30,7 @@ FlowLists == {fl \in FlowLists0 : Len(fl) < 2 \/ fl[1] # fl[2]}
 
 StockPool ==
     {[name |-> "in use", cls |-> c, lm |-> l, solver |-> s, tl |-> tl, proc |-> p, dims |-> ds] :
-        c \in AllClasses, l \in {"", "FixedLifetime", "WeibullLifetime"}, s \in {"manual", "lapack"},
+        c \in AllClasses \cup {"UserStockDrivenDSM"}, l \in {"", "FixedLifetime", "WeibullLifetime"}, s \in {"manual", "lapack"},
         tl \in {"t", "r"}, p \in {"", "A", "X"}, ds \in {<<"t", "r">>, <<"r", "t">>, <<"t">>, <<"t", "z">>}}
 StockLists == {<<>>} \cup {<<s>> : s \in StockPool}
 ParamLists == {<<>>, << [name |-> "alpha", dims |-> <<"r", "t">>] >>,
@@ -46,7 +46,8 @@ DefConfigs ==
 
 \* dimension files
 ItemLists == {<<2000, 2010, 2020>>, <<7>>, <<3, 1, 2>>}
-StrLists == {<<"x", "y">>, <<"product", "scrap", "waste">>, <<"b", "a", "c">>, <<"only">>}
+\* (the last list: items that a reader would parse as numbers although the dimension is declared as strings)
+StrLists == {<<"x", "y">>, <<"product", "scrap", "waste">>, <<"b", "a", "c">>, <<"only">>, <<"2000", "2010", "1990">>}
 FileConfigs ==
     {[op |-> "dimfile", name |-> nm, dtype |-> "int", ints |-> it, strs |-> <<>>, orient |-> o, headed |-> h, ftype |-> ft, sheet |-> sh, twod |-> td] :
         nm \in {"Time"}, it \in ItemLists, o \in {"row", "col"}, h \in BOOLEAN, ft \in {"csv", "xlsx"},
